@@ -31,9 +31,11 @@ LEVEL_NOTE = ("Trusted: Lean kernel; the model's reading of xdsdepmgr (static/dy
 GAP = "interceptors, cluster specifier plugins, resource errors, real RPC streams (OnCommitted is called directly)"
 ASSUMPTIONS = ["callback serializer is FIFO", "xDS resources for every named cluster are available (fake client answers every watch)",
                "SelectConfig is not called on a stopped config selector"]
-RULE = ("random op sequences over clusters 1..3: rds with random subsets (incl. empty), pause/next placing blocking callbacks in the "
+RULE = ("random op sequences over clusters 1..3: rds with random route lists (random subsets incl. empty; in ~40% of them a cluster is "
+        "named by more than one route entry), pause/next placing blocking callbacks in the "
         "resolver's serializer, select with fresh ids on any cluster, commit of any id (repeated commits included); directed scenarios: "
-        "removal with one and several in-flight RPCs, re-adding a cluster before/after the last commit, commit while an update is "
+        "removal with one and several in-flight RPCs, a cluster named by several route entries (two routes, twice in one weighted-cluster "
+        "route) then removed with and without an RPC in flight, re-adding a cluster before/after the last commit, commit while an update is "
         "queued, flapping routes with queued updates. Every case ends by releasing all blocking callbacks and committing everything. "
         "non-trivial = at least one successful select and one route change after it; distinct = distinct op list")
 
@@ -49,6 +51,28 @@ def directed():
     yield ["rds 1", "select 1 1", "commit 1", "commit 1", "commit 1", "rds -"], "commit-thrice"
     yield ["select 1 1", "commit 9", "rds -", "select 2 1", "rds 1", "select 3 2"], "errors"
     yield ["pause", "rds 1", "pause", "rds 3", "pause", "next", "select 8 1", "next", "next", "commit 8"], "stale-snapshot"
+    # the same cluster named by several routes / several times in one route: the config selector owns ONE reference per
+    # distinct cluster, whatever the number of route entries
+    yield ["rds 1,1", "select 1 1", "rds 2", "commit 1", "commit 1"], "shared-by-two-routes-inflight"
+    yield ["rds 1,1", "rds 2", "rds 2,3"], "shared-by-two-routes-unused"
+    yield ["rds 1+1,2", "select 1 1", "select 2 2", "rds 3", "commit 2", "commit 1"], "twice-in-weighted-clusters"
+    yield ["rds 1,2,1,1+1", "select 1 1", "rds 2,2", "select 2 2", "rds 1", "commit 1", "commit 2", "rds -"], "many-entries"
+
+
+def routes(rng, ncl, least):
+    """a route list over clusters 1..ncl: a random subset, and in ~40% of the lists some cluster is named by more than one
+    route entry (repeated route, or twice inside one weighted-cluster route)"""
+    sub = sorted(rng.sample(range(1, ncl + 1), rng.randrange(least, ncl + 1)))
+    items = [str(c) for c in sub]
+    if sub and rng.random() < 0.4:
+        for _ in range(rng.randrange(1, 3)):
+            c = rng.choice(sub)
+            if rng.random() < 0.6:
+                items.insert(rng.randrange(0, len(items) + 1), str(c))
+            else:
+                i = items.index(str(c)) if str(c) in items else 0
+                items[i] = "%d+%d" % (c, c)
+    return ",".join(items) or "-"
 
 
 def gen(rng, tier):
@@ -62,12 +86,11 @@ def gen(rng, tier):
         ids = []
         blockers = 0
         ncl = rng.randrange(2, 4)
-        ops.append("rds " + ",".join(str(c) for c in sorted(rng.sample(range(1, ncl + 1), rng.randrange(1, ncl + 1)))))
+        ops.append("rds " + routes(rng, ncl, 1))
         while len(ops) < ln:
             k = rng.random()
             if k < 0.28:
-                sub = sorted(rng.sample(range(1, ncl + 1), rng.randrange(0, ncl + 1)))
-                ops.append("rds " + (",".join(str(c) for c in sub) or "-"))
+                ops.append("rds " + routes(rng, ncl, 0))
             elif k < 0.40 and blockers < 3:
                 ops.append("pause")
                 blockers += 1
